@@ -84,6 +84,15 @@ impl<S: Read + Write> Stream<S> {
             _ => ()
         })
     }
+
+    /// Number of bytes already decrypted by the TLS layer
+    /// and not yet read (invisible to a select on the socket)
+    pub fn buffered_read_size(&self) -> usize {
+        match self {
+            Stream::Ssl(e) => e.buffered_read_size().unwrap_or(0),
+            _ => 0
+        }
+    }
 }
 
 /// Link layer is a wrapper around TCP or SSL stream
@@ -218,6 +227,11 @@ impl<S: Read + Write> Link<S> {
     /// Only works on SSL Stream
     pub fn shutdown(&mut self) -> RdpResult<()> {
         self.stream.shutdown()
+    }
+
+    /// Number of bytes buffered by the TLS layer
+    pub fn buffered_read_size(&self) -> usize {
+        self.stream.buffered_read_size()
     }
 
     #[cfg(feature = "integration")]
